@@ -104,7 +104,9 @@ PROPS["C09"] = {
              "of the discloser (else violation) and that pair is not in the window {s,s+1}x{r-1,r} read off the disclosing message; each pair under which the party accepted a message with an observable effect and which a later message of the party shows retired "
              "has its receiving key disclosed at or after retirement; messages forged under disclosed keys are rejected by the discloser. Non-trivial: >=1 disclosure and a rotation on each axis."),
     "assumptions": COMMON_ASSUME,
+    "exhaustive_checks": ["C09damaged"],
     "tests": [
+        {"name": "TestProp_C09_Damaged", "kind": "plain", "quick": {"shards": 8, "timeout": 600}, "thorough": {"shards": 8, "timeout": 3000}},
         {"name": "TestProp_C09_Disclosure", "quick": {"shards": 8, "checks": 30, "timeout": 400}, "thorough": {"shards": 16, "checks": 500, "timeout": 3000}},
     ],
 }
